@@ -13,7 +13,7 @@ def parse(lines):
         w = l.split()
         if not w:
             continue
-        if w[0] in ("G", "P", "T", "D", "R", "W"):
+        if w[0] in ("G", "P", "T", "D", "R", "W", "K"):
             ev.append((w[0],) + tuple(int(x) for x in w[1:]))
         elif w[0] == "S":
             sel[int(w[1])][int(w[2])].append(int(w[3]))
@@ -73,6 +73,8 @@ def check(cfg, lines):
     draws = defaultdict(lambda: defaultdict(list))
     level = defaultdict(lambda: [0.0, 0, 0])     # edge -> [integral, last t, last n]
     cycle = Counter()
+    packed = defaultdict(list)
+    got_from = {}
     t_disc = {}
     pull_log = defaultdict(list)     # node -> [(t, item, edge)] in log order
     push_log = defaultdict(list)
@@ -95,9 +97,20 @@ def check(cfg, lines):
             place[i] = ("src", n)
             t_gen[i] = t
             held[n].append(i)
+        elif k == "K":
+            _, t, n, pal, i = e
+            if place.get(i) != ("node", n) or place.get(pal) != ("node", n):
+                v("C03", "item %d packed into pallet %d by node %d while they are at %s / %s" % (i, pal, n, place.get(i), place.get(pal)))
+            place[i] = ("pal", pal)
+            packed[pal].append((i, got_from.get(i)))
+            if i in held[n]:
+                held[n].remove(i)
         elif k == "P":
             _, t, ed, i = e
             src = src_of_edge[ed]
+            if place.get(i, ("?",))[0] == "pal" and place.get(place[i][1]) == ("node", src):
+                place[i] = ("node", src)       # unpacked by the splitter that holds the pallet
+                held[src].append(i)
             if place.get(i) not in (("src", src), ("node", src)):
                 v("C03", "item %d put on edge %d at %s while it is at %s" % (i, ed, t, place.get(i)))
             if i in held[src]:
@@ -128,11 +141,14 @@ def check(cfg, lines):
                 held[dst].append(i)
                 max_held[dst] = max(max_held[dst], len(held[dst]))
             t_get[i].append((t, ed))
+            got_from[i] = ed
             pull_log[dst].append((t, i, ed))
             got_by[i] = dst
         elif k == "D":
             _, t, n, i = e
             disc_count[n] += 1
+            if place.get(i, ("?",))[0] == "pal" and place.get(place[i][1]) == ("node", n):
+                held[n].append(i)              # popped from the pallet the splitter holds
             if i not in held[n]:
                 v("C03", "node %d counts the discard of item %d at %s but does not hold it (it is at %s)" % (n, i, t, place.get(i)))
             else:
